@@ -16,6 +16,8 @@ def loc(i):
 class Gen:
     def __init__(self, seed, size='small', features=None):
         self.r = random.Random(seed)
+        # second stream for dimensions added later: the first one keeps producing what it produced before
+        self.r2 = random.Random(seed * 2654435761 % (1 << 31) + 17)
         self.seed = seed
         self.size = size
         self.forced = features or {}
@@ -211,12 +213,33 @@ class Gen:
             if r.random() < 0.3:
                 b["policy"] = r.choice(["skip-if-no-intersection", "skip-if-arrival-before-end"])
             sh["breaks"] = [b]
+            r2 = self.r2
+            if r2.random() < 0.25:
+                # an alternative place of the same break (another duration / location / tag)
+                alt = {"duration": float(r2.choice([5, 20, 40]))}
+                # all places of a break with a location or none of them: a mix makes the solver panic ("break with multiple places is
+                # not supported", recorded finding) and is generated only on request
+                coin = r2.random() < 0.5
+                if (coin if self.forced.get('mixed_break_places') else "location" in place): alt["location"] = loc(r2.randrange(n))
+                alt["tag"] = "brk-alt"
+                b["places"].append(alt)
+            if r2.random() < 0.25 and not offset_break:
+                # a second break later in the shift (windows do not intersect: E1303)
+                a2 = a + 210 + r2.randint(0, 100)
+                if a2 + 60 <= s0 + length:
+                    p2 = {"duration": float(r2.choice([10, 15]))}
+                    if r2.random() < 0.5: p2["tag"] = "brk2"
+                    sh["breaks"].append({"time": [ts(a2), ts(min(a2 + r2.choice([50, 100]), s0 + length))], "places": [p2]})
         if f['reloads'] and r.random() < 0.8:
             rl = []
             for _ in range(r.randint(1, 2)):
                 x = {"location": loc(r.choice([0, r.randrange(n)])), "duration": float(r.choice([0, 10, 20]))}
                 if r.random() < 0.3: x["tag"] = "rl%d" % len(rl)
                 if f['resources'] and r.random() < 0.7: x["resourceId"] = "res1"
+                if self.r2.random() < 0.2:
+                    # opening times of the reload place inside the shift
+                    a = s0 + self.r2.randint(0, length // 2)
+                    x["times"] = [[ts(a), ts(min(a + self.r2.choice([100, 300, 800]), s0 + length))]]
                 rl.append(x)
             sh["reloads"] = rl
         return sh, s0 + length
@@ -233,7 +256,7 @@ class Gen:
                 ids.append("v%d" % vid)
             shifts = []
             at = r.choice([0, 0, 100])
-            for _ in range(2 if f['multishift'] and r.random() < 0.5 else 1):
+            for _ in range((2 if f['multishift'] and r.random() < 0.5 else 1) + (1 if f['multishift'] and self.r2.random() < 0.2 else 0)):
                 sh, at = self.shift(n, horizon, f, at, dims)
                 at += r.choice([1, 50])
                 shifts.append(sh)
@@ -269,7 +292,7 @@ class Gen:
         cost = {"type": r.choice(["minimize-cost", "minimize-distance", "minimize-duration"])}
         objs = []
         if has_value:
-            objs.append({"type": "maximize-value"})
+            objs.append({"type": "maximize-value"} if self.r2.random() < 0.7 else {"type": "maximize-value", "breaks": float(self.r2.choice([1, 100]))})
         shape = r.random()
         if shape < 0.15:
             # unusual but valid: unassigned jobs traded against cost inside one competitive layer
